@@ -76,13 +76,13 @@ Theorem C14_cmp_refuted : exists F a b, wf F /\ enc F a /\ enc F b /\ ~ diff_rep
   fxcmp F F a b = Some (1, 0, 0) /\ spec_cmp (fwidth F) a b = (0, 0, 1).
 Proof. exact fxcmp_refuted. Qed.
 
-(* the software reference helper.FixedPoint computes the same encodings (it needs >= 1 integer bit: its constructor
-   evaluates 1 << (iw-1), DESIGN section 7 #23) *)
-Theorem C14_helper_add : forall F a b, wf F -> 1 <= fint F -> fxh_add F a b = fxadd F F F a b.
+(* the software reference helper.FixedPoint computes the same encodings, for EVERY signed format including those with no
+   integer bits (its constructor evaluates (1 << iw) >> 1 since /repo 6fe767a, finding C12-23; it raises only for iw < 0) *)
+Theorem C14_helper_add : forall F a b, wf F -> fxh_add F a b = fxadd F F F a b.
 Proof. exact fxh_add_agrees. Qed.
-Theorem C14_helper_sub : forall F a b, wf F -> 1 <= fint F -> fxh_sub F a b = fxsub F F F a b.
+Theorem C14_helper_sub : forall F a b, wf F -> fxh_sub F a b = fxsub F F F a b.
 Proof. exact fxh_sub_agrees. Qed.
-Theorem C14_helper_mult : forall F a b, wf F -> 1 <= fint F -> enc F a -> enc F b -> fxh_mult F a b = fxmul F F F a b.
+Theorem C14_helper_mult : forall F a b, wf F -> enc F a -> enc F b -> fxh_mult F a b = fxmul F F F a b.
 Proof. exact fxh_mult_agrees. Qed.
 
 (* non-vacuity of the hypotheses, on non-trivial instances *)
@@ -101,7 +101,9 @@ Example C14_cmp_instance :     (* -0.5 < 1.0 in (1,1,1): difference -1.5 represe
 Proof. unfold wf, enc, diff_representable. cbn [fsign fint ffrac fwidth]. repeat split; try lia; vm_compute; congruence. Qed.
 Example C14_add_exact_instance : - 2 ^ (4 - 1) <= fxint 4 13 + fxint 4 2 < 2 ^ (4 - 1) /\ spec_add 4 13 2 = 15.
 Proof. vm_compute. repeat split; congruence. Qed.
-Example C14_helper_instance : let F := (1, 2, 2) in wf F /\ 1 <= fint F /\ enc F 27 /\ enc F 6 /\ fxh_mult F 27 6 = Some 24.
+Example C14_helper_instance :  (* (1,2,2): -1.25 * 1.5 -> floor(-1.875 in quarters) = -2.0;  pure fraction (1,0,3): -0.5 * 0.75 = -0.375 = 0b1101 *)
+  (let F := (1, 2, 2) in wf F /\ enc F 27 /\ enc F 6 /\ fxh_mult F 27 6 = Some 24) /\
+  (let F := (1, 0, 3) in wf F /\ enc F 12 /\ enc F 6 /\ fxh_mult F 12 6 = Some 13).
 Proof. unfold wf, enc. cbn [fsign fint ffrac fwidth]. repeat split; try lia; vm_compute; congruence. Qed.
 
 Print Assumptions C14_add.
